@@ -17,7 +17,7 @@ from ..sweep34 import cflags
 
 LEVEL = "model_checking"
 
-PREAMBLE = r'''
+PREAMBLE_T = r'''
 namespace gen {
 struct PA : decltype(au::Kelvins{} * au::mag<3>() / au::mag<7>()) { static constexpr auto origin() { return (au::kelvins / au::mag<4>())(5); } };
 struct PB : au::Kelvins { static constexpr auto origin() { return (au::kelvins / au::mag<6>())(-7); } };
@@ -30,6 +30,10 @@ struct PH : au::Kelvins { static constexpr auto origin() { return (au::kelvins /
 // origins written in different units whose raw numbers order the other way round than the origins themselves
 struct PI : decltype(au::Kelvins{} / au::mag<2>()) { static constexpr auto origin() { return au::milli(au::kelvins)(5000); } };   // 5 K, raw 5000
 struct PJ : decltype(au::Kelvins{} * au::mag<2>()) { static constexpr auto origin() { return au::kelvins(7); } };                 // 7 K, raw 7
+// the Celsius origin (273.15 K) written in other units than Celsius writes it in (tie-break arm of CommonOrigin)
+struct PK : au::Kelvins { static constexpr auto origin() { return au::milli(au::kelvins)(273150); } };
+struct PL : decltype(au::Kelvins{} * au::mag<3>() / au::mag<7>()) { static constexpr auto origin() { return (au::kelvins / au::mag<20>())(5463); } };
+%(GEN2)s
 }
 namespace c10 {
 inline std::string origin_json(au::Zero) { return "{\"v\":0,\"mag\":[]}"; }
@@ -45,45 +49,192 @@ std::string probe_json() {
     const long long v7 = au::make_quantity_point<Ui>(7LL).template coerce_in<long long>(C{});
     return "[" + std::to_string(v0) + "," + std::to_string(v1) + "," + std::to_string(v7) + "]";
 }
+// the same three probe points in an unsigned rep T (source and target rep): the statement promises unsigned reps stay exact
+template <typename T, typename Ui, typename C>
+std::string probe_json_u() {
+    const T v0 = au::make_quantity_point<Ui>(T{0}).template coerce_in<T>(C{});
+    const T v1 = au::make_quantity_point<Ui>(T{1}).template coerce_in<T>(C{});
+    const T v7 = au::make_quantity_point<Ui>(T{7}).template coerce_in<T>(C{});
+    return "[" + std::to_string(v0) + "," + std::to_string(v1) + "," + std::to_string(v7) + "]";
+}
 }
 '''
 
 KELVIN_DIM = model.d(TH=1)
+INT_MAX, I64_MAX, U32_MAX = 2 ** 31 - 1, 2 ** 63 - 1, 2 ** 32 - 1
 
 
-def pt(name, cpp, scale, origin):
-    return model.Unit(name, cpp, KELVIN_DIM, model.mag_of_fraction(scale), origin, None, named=True)
+def pt(name, cpp, scale, origin, orep, named=True):
+    """orep = (unit in kelvins, integer value) of the origin as the unit's origin() member writes it; None = no member."""
+    u = model.Unit(name, cpp, KELVIN_DIM, model.mag_of_fraction(scale), origin, None, named=named)
+    u.orep = orep
+    assert (orep is None and origin == 0) or Fr(orep[0]) * orep[1] == origin, name
+    return u
+
+
+def fgcd(a, b):
+    import math
+    return Fr(math.gcd(a.numerator * b.denominator, b.numerator * a.denominator), a.denominator * b.denominator)
+
+
+# ---- generated family G0..G(n-1): an enumerated lattice over three small alphabets (no sampling).  Unit n takes
+# scale S[n mod |S|], origin unit O[(3n + n div |S|) mod |O|], origin number K[(5n + n div |O|) mod |K|]; a, b, c, d <= 1000, |k| <= 50.
+G_SCALES = [Fr(7, 11), Fr(13, 8), Fr(997, 1000), Fr(121, 49), Fr(1, 1000), Fr(999, 1000), Fr(210, 143), Fr(64, 81),
+            Fr(991, 997), Fr(1000, 7), Fr(3, 1000), Fr(1)]
+G_OUNITS = [Fr(1), Fr(1, 4), Fr(1, 6), Fr(1, 100), Fr(1, 1000), Fr(5, 27), Fr(7, 11), Fr(13, 1000), Fr(1, 997), Fr(3, 7), Fr(8, 13)]
+G_KS = [-50, -7, -1, 1, 3, 50, 0]
+N_GEN2 = 36
+N_GEN2_QUICK = 16          # quick tier uses G0..G15
+N_GEN2_TRIPLES = 12        # thorough: all triples over G0..G11
+
+
+def gen2():
+    out, cpp, seen = [], [], set()
+    for n in range(N_GEN2):
+        s = G_SCALES[n % len(G_SCALES)]
+        ou = G_OUNITS[(3 * n + n // len(G_SCALES)) % len(G_OUNITS)]
+        k = G_KS[(5 * n + n // len(G_OUNITS)) % len(G_KS)]
+        if (s, ou * k) in seen:
+            continue
+        seen.add((s, ou * k))
+        mg = lambda f: "".join([" * au::mag<%d>()" % f.numerator if f.numerator != 1 else "",
+                                " / au::mag<%d>()" % f.denominator if f.denominator != 1 else ""])
+        cpp.append("struct G%d : decltype(au::Kelvins{}%s) { static constexpr auto origin() { return (au::kelvins%s)(%d); } };"
+                   % (n, mg(s), mg(ou), k))
+        out.append(pt("G%d" % n, "gen::G%d" % n, s, ou * k, (ou, k)))
+    return out, "\n".join(cpp)
+
+
+GEN2, GEN2_CPP = gen2()
+PREAMBLE = PREAMBLE_T.replace("%(GEN2)s", GEN2_CPP)
 
 
 def alphabet(tier):
     P = {p[0]: p for p in model.ALL_PREFIXES}
     K, C, F = U["kelvins"], U["celsius"], U["fahrenheit"]
     lib = [K, C, F, model.prefixed(P["Milli"], K), model.prefixed(P["Centi"], C), model.prefixed(P["Kilo"], K),
-           model.prefixed(P["Milli"], F), model.prefixed(P["Milli"], C)]
-    gen = [pt("PA", "gen::PA", Fr(3, 7), Fr(5, 4)), pt("PB", "gen::PB", 1, Fr(-7, 6)),
-           pt("PC", "gen::PC", Fr(2, 5), Fr(27315, 100)), pt("PD", "gen::PD", Fr(5, 9), Fr(5, 27)),
-           pt("PE", "gen::PE", Fr(1000, 999), 0), pt("PF", "gen::PF", Fr(3, 7), Fr(-7, 6)),
-           pt("PG", "gen::PG", Fr(2, 5), Fr(5, 4)), pt("PH", "gen::PH", 1, Fr(5, 4))]
-    gen += [pt("PI", "gen::PI", Fr(1, 2), 5), pt("PJ", "gen::PJ", 2, 7)]
-    lib += [model.prefixed(P["Kilo"], C)]
+           model.prefixed(P["Milli"], F), model.prefixed(P["Milli"], C), model.prefixed(P["Kilo"], C)]
+    CK, CR = Fr(1, 100), Fr(1, 180)          # centi-kelvins, centi-rankines
+    for u in lib:
+        u.orep = None if u.origin == 0 else (CK, 27315) if u.origin == Fr(27315, 100) else (CR, 45967)
+        assert u.orep is None or u.orep[0] * u.orep[1] == u.origin
+    gen = [pt("PA", "gen::PA", Fr(3, 7), Fr(5, 4), (Fr(1, 4), 5)), pt("PB", "gen::PB", 1, Fr(-7, 6), (Fr(1, 6), -7)),
+           pt("PC", "gen::PC", Fr(2, 5), Fr(27315, 100), (CK, 27315)), pt("PD", "gen::PD", Fr(5, 9), Fr(5, 27), (Fr(5, 27), 1)),
+           pt("PE", "gen::PE", Fr(1000, 999), 0, None), pt("PF", "gen::PF", Fr(3, 7), Fr(-7, 6), (Fr(1, 6), -7)),
+           pt("PG", "gen::PG", Fr(2, 5), Fr(5, 4), (Fr(1, 4), 5)), pt("PH", "gen::PH", 1, Fr(5, 4), (Fr(1, 4), 5)),
+           pt("PI", "gen::PI", Fr(1, 2), 5, (Fr(1, 1000), 5000)), pt("PJ", "gen::PJ", 2, 7, (Fr(1), 7))]
+    # special units: equal origins written in different units (tie-break arm of CommonOrigin) and anonymous units
+    # that are point-equivalent to a library unit (distinct types with the same scale and origin)
+    special = [pt("PK", "gen::PK", 1, Fr(27315, 100), (Fr(1, 1000), 273150)),
+               pt("PL", "gen::PL", Fr(3, 7), Fr(27315, 100), (Fr(1, 20), 5463)),
+               pt("K*1000", "decltype(au::Kelvins{} * au::mag<1000>())", 1000, 0, None, named=False),
+               pt("cC*100", "decltype(au::Centi<au::Celsius>{} * au::mag<100>())", 1, Fr(27315, 100), (CK, 27315), named=False)]
     if tier == "quick":
-        return lib[:6] + [lib[6], lib[8]] + gen[:6] + gen[8:], lib[:6]
-    return lib + gen, lib[:6]
+        main = lib[:6] + [lib[6], lib[8]] + gen[:6] + gen[8:]
+    else:
+        main = lib + gen
+    return main, lib[:6], special, GEN2
+
+
+def build_lists(tier, main, lib6, special, g2):
+    """Every list is a sorted tuple of indices into `allu`; enumeration is complete over the stated families."""
+    allu = main + special + g2
+    ix = {u.cpp: i for i, u in enumerate(allu)}
+    L = set()
+    l6 = [ix[u.cpp] for u in lib6]
+    ms = list(range(len(main) + len(special)))
+    nq = N_GEN2_QUICK if tier == "quick" else len(g2)
+    g = [ix[u.cpp] for u in g2[:nq]]
+    m = len(g)
+    L |= {(i,) for i in ms + g}                                               # singletons
+    L |= set(itertools.combinations(ms, 2))                                   # all pairs over main + special
+    L |= set(itertools.combinations(g, 2))                                    # all pairs of generated units
+    L |= {tuple(sorted((gi, a))) for gi in g for a in (l6[:3] if tier == "quick" else l6)}   # generated x K/C/F (thorough: x 6 library units)
+    L |= set(itertools.combinations(range(len(main)), 3))                     # all triples over the main alphabet
+    for s in special:                                                         # special x pairs of library units
+        L |= {tuple(sorted((ix[s.cpp],) + c)) for c in itertools.combinations(l6, 2)}
+    L |= {tuple(sorted(ix[s.cpp] for s in c)) for c in itertools.combinations(special, 3)}
+    for (d1, d2) in ((1, 2), (2, 5), (7, 13)):                                # three cyclic difference patterns of triples
+        L |= {tuple(sorted({g[i], g[(i + d1) % m], g[(i + d2) % m]})) for i in range(m)}
+    for a, b in itertools.combinations(l6[:3], 2):                            # generated x two of K/C/F
+        L |= {tuple(sorted((gi, a, b))) for gi in g}
+    if tier != "quick":
+        L |= {tuple(sorted(c)) for c in itertools.combinations(g[:N_GEN2_TRIPLES], 3)}
+        for a, b in itertools.combinations(l6, 2):
+            L |= {tuple(sorted((gi, a, b))) for gi in g}
+        L |= set(itertools.combinations(sorted(l6), 4))
+        L |= {tuple(sorted((ix[s.cpp], ix[t.cpp], a))) for s, t in itertools.combinations(special, 2) for a in range(len(main))}
+    L = {l for l in L if len(set(l)) == len(l)}
+    lists = [[allu[i] for i in l] for l in sorted(L, key=lambda l: (len(l), l))]
+    return allu, [l for l in lists if not model.ordering_conflict(l)]
+
+
+def pol(k, rep_max):
+    return k == 1 or 2147 * k <= rep_max
+
+
+def predict(us):
+    """Model of what the statement lets the library refuse (origins are Quantity<., int>: comparing / subtracting two of them
+    goes through the implicit-conversion policy and must not overflow int in a constant expression), plus the exact
+    ranges of the probe computations.  Returns (reason-or-None for the long long/uint64 probes, u32_ok, model scale, model origin)."""
+    oc = min(u.origin for u in us)
+    reason = None
+    reps = [u.orep for u in us if u.orep is not None]
+    for i in range(len(reps)):
+        for j in range(i + 1, len(reps)):
+            (ui, vi), (uj, vj) = reps[i], reps[j]
+            g = fgcd(ui, uj)
+            ki, kj = ui / g, uj / g
+            if not (pol(ki, INT_MAX) and pol(kj, INT_MAX)):
+                reason = reason or "origin comparison outside the implicit-conversion policy for int"
+            elif max(abs(vi * ki), abs(vj * kj), abs(vi * ki - vj * kj)) > INT_MAX:
+                reason = reason or "origin difference not representable in int"
+    # candidates for the unit the common origin is written in (ties: the statement does not say which one wins)
+    cands = sorted({u.orep[0] for u in us if u.orep is not None and u.origin == oc})
+    tie = len(cands) > 1
+    disp_units = []
+    for u in us:
+        if u.origin == oc:
+            continue
+        for cu in (cands or [None]):
+            disp_units.append((u, u.orep[0] if cu is None else fgcd(u.orep[0], cu)) if u.orep is not None else (u, cu))
+    scales = [model.mag_fraction(u.mag) for u in us]
+    sc = scales[0]
+    for x in scales[1:] + [d for _, d in disp_units]:
+        sc = fgcd(sc, x)
+    u32 = not tie and reason is None
+    for u in us:
+        s = model.mag_fraction(u.mag)
+        a, b = s / sc, (u.origin - oc) / sc
+        if a.denominator != 1 or b.denominator != 1:
+            return reason or "model: common unit does not divide (cannot happen)", False, sc, oc
+        if 7 * a + b > I64_MAX:
+            reason = reason or "probe value 7a+b not representable in long long"
+        if 7 * a + b > U32_MAX:
+            u32 = False
+        for uu, du in disp_units:
+            if uu is not u:
+                continue
+            cu = fgcd(s, du)
+            kx, kd = s / cu, du / cu
+            if not (pol(kx, I64_MAX) and pol(kd, I64_MAX)):
+                reason = reason or "point conversion outside the implicit-conversion policy for long long"
+            if not (pol(kx, U32_MAX) and pol(kd, U32_MAX)) or cu / sc > U32_MAX:
+                u32 = False
+    return reason, u32, sc, oc
+
+
+U32_OFF = 10 ** 6
+CONTROL = 10 ** 7
 
 
 def check(run):
     tier = run.tier
-    units, lib6 = alphabet(tier)
-    lists = []
-    for size in (2, 3):
-        for combo in itertools.combinations(range(len(units)), size):
-            lists.append([units[i] for i in combo])
-    if tier == "thorough":
-        for combo in itertools.combinations(range(len(lib6)), 4):
-            lists.append([lib6[i] for i in combo])
-    lists = [l for l in lists if not model.ordering_conflict(l)]
+    main, lib6, special, g2 = alphabet(tier)
+    units, lists = build_lists(tier, main, lib6, special, g2)
     recs, meta = [], {}
     n_trans = 0
+    pred_out = {}
     for rid, us in enumerate(lists):
         names = [u.cpp for u in us]
         size = len(us)
@@ -92,8 +243,11 @@ def check(run):
         if size == 4:
             perms = perms[::2]
         variants = ["au::CommonPointUnitT<%s>" % ", ".join(p) for p in perms]
+        # repetitions: <..., first>, <last, ..., first>, <first, first, rest...>, <..., last, last>
         variants.append("au::CommonPointUnitT<%s>" % ", ".join(names + [names[0]]))
         variants.append("au::CommonPointUnitT<%s>" % ", ".join([names[-1]] + names + names[:1]))
+        variants.append("au::CommonPointUnitT<%s>" % ", ".join(names[:1] * 2 + names[1:]))
+        variants.append("au::CommonPointUnitT<%s>" % ", ".join(names + names[-1:] * 2))
         variants.append("decltype(au::common_point_unit(%s))" % ", ".join(n + "{}" for n in reversed(names)))
         variants.append("au::AssociatedUnitForPointsT<decltype(au::make_common_point(%s))>"
                         % ", ".join("au::QuantityPointMaker<%s>{}" % n for n in names))
@@ -101,81 +255,168 @@ def check(run):
         for k in range(1, size):
             nests.append("au::CommonPointUnitT<au::CommonPointUnitT<%s>, %s>" % (", ".join(names[:k]), ", ".join(names[k:])))
             nests.append("au::CommonPointUnitT<%s, au::CommonPointUnitT<%s>>" % (", ".join(names[:k]), ", ".join(names[k:])))
+        reason, u32, sc_m, oc_m = predict(us)
+        if tier == "quick" and size == 3 and all(u in main for u in us):
+            u32 = False          # quick: uint32_t probes for singletons, pairs and every triple with a special/generated unit
         stm = ['using C = %s;' % C, 'vf_kv("u", "{" + vf::unit_json<C>() + "}");',
                'vf_kv("origin", c10::origin_json(au::origin_displacement(au::Kelvins{}, C{})));',
                '{ const bool p[] = {%s}; long bad = -1; for (long i = 0; i < %d; ++i) if (!p[i] && bad < 0) bad = i; vf_i("perm_bad", bad); }'
                % (", ".join("std::is_same<%s, C>::value" % v for v in variants), len(variants)),
-               '{ const bool p[] = {%s}; long n = 0; for (long i = 0; i < %d; ++i) n += !p[i]; vf_i("nest_differs", n); }'
-               % (", ".join("std::is_same<%s, C>::value" % v for v in nests), len(nests)),
+               ('{ const bool p[] = {%s}; long n = 0; for (long i = 0; i < %d; ++i) n += !p[i]; vf_i("nest_differs", n); }'
+                % (", ".join("std::is_same<%s, C>::value" % v for v in nests), len(nests))) if nests else 'vf_i("nest_differs", 0);',
                '{ const bool p[] = {%s}; long hit = -1; for (long i = 0; i < %d; ++i) if (p[i] && hit < 0) hit = i; vf_i("same_as_input", hit); }'
                % (", ".join("std::is_same<%s, C>::value" % n for n in names), size),
                '{ const std::string r[] = {%s}; std::string s = "["; for (long i = 0; i < %d; ++i) { if (i) s += ","; s += r[i]; } vf_kv("maps", s + "]"); }'
-               % (", ".join("c10::probe_json<%s, C>()" % n for n in names), size)]
+               % (", ".join("c10::probe_json<%s, C>()" % n for n in names), size),
+               '{ const std::string r[] = {%s}; std::string s = "["; for (long i = 0; i < %d; ++i) { if (i) s += ","; s += r[i]; } vf_kv("maps_u64", s + "]"); }'
+               % (", ".join("c10::probe_json_u<unsigned long long, %s, C>()" % n for n in names), size)]
         recs.append((rid, ["{"] + stm + ["}"]))
-        meta[rid] = {"units": us, "variants": variants}
-        n_trans += len(variants) + size
+        meta[rid] = {"units": us, "variants": variants, "reason": reason, "u32": u32, "sc_m": sc_m, "oc_m": oc_m}
+        if reason:
+            pred_out[reason] = pred_out.get(reason, 0) + 1
+        if u32:
+            recs.append((rid + U32_OFF, ["{", 'using C = %s;' % C,
+                                         '{ const std::string r[] = {%s}; std::string s = "["; for (long i = 0; i < %d; ++i) { if (i) s += ","; s += r[i]; } vf_kv("maps_u32", s + "]"); }'
+                                         % (", ".join("c10::probe_json_u<std::uint32_t, %s, C>()" % n for n in names), size), "}"]))
+        n_trans += len(variants) + 2 * size + (size if u32 else 0)
+    # control record: uses the harness but no common point unit; if it does not compile the build environment is broken
+    recs.append((CONTROL, ['vf_kv("u", "{" + vf::unit_json<au::Kelvins>() + "}");',
+                           'vf_kv("origin", c10::origin_json(au::origin_displacement(au::Kelvins{}, au::Celsius{})));']))
     cfgs = core.CORNERS if tier == "quick" else core.CFG6
-    ood = {}
-    checked = 0
-    nest_differs = [0]
+    ood, checked, nest_differs = {}, 0, 0
+    cnt = {"not_compiling_violations": 0, "u32_lists_judged": 0, "u32_not_compiling_outside_model_scale_not_judged": 0,
+           "maps_not_judged_value_out_of_range": 0, "common_scale_differs_from_model_gcd": 0, "tie_lists": 0,
+           "lists_with_point_equivalent_inputs": 0, "result_is_an_input": 0}
+    shown = {}
+    n_lists_cut = 0
     for cfg in cfgs:
+        if run.time_left() < 120:
+            n_lists_cut += 1
+            continue
         res, failed = psx.run_dump(cfg, recs, os.path.join(run.wd, cfg.name), "c10", PREAMBLE, flags=cflags(cfg),
-                                   chunk=max(8, len(recs) // (core.NCPU * 2) + 1))
-        for r, diag in failed.items():
-            ood.setdefault(str(cfg), []).append({"list": [u.name for u in meta[r]["units"]], "diag": diag[:200]})
-        for r, o in res.items():
+                                   chunk=max(8, min(40, len(recs) // (core.NCPU * 2) + 1)))   # small TUs: a failing TU is bisected
+        if CONTROL not in res:
+            raise core.InfraError("C10 control record (no common point unit involved) does not build under %s: %s"
+                                  % (cfg, failed.get(CONTROL, "")[:300]))
+
+        def viol(kind, desc, what, r, o, cap=60):
+            key = "C10:%s:%s" % (kind, desc)
+            shown[kind] = shown.get(kind, 0) + 1
+            rp = None
+            if shown[kind] <= cap and run.match_known(key) is None:
+                rp = run.write_replay(key, {"kind": "program", "config": str(cfg), "units": [u.cpp for u in meta[r % U32_OFF]["units"]],
+                                            "stmts": [s for (i, s) in recs if i == r][0], "observed": o, "what": what})
+            run.violation(key, "%s: %s" % (cfg, what), rp)
+        for r, diag in sorted(failed.items()):
+            m = meta[r % U32_OFF]
+            desc = ",".join(u.name for u in m["units"])
+            if r >= U32_OFF:
+                if (r - U32_OFF) in res and model.mag_fraction(model.mag_from_readout(res[r - U32_OFF]["u"]["mag"])) == m["sc_m"]:
+                    cnt["not_compiling_violations"] += 1
+                    viol("does-not-compile-uint32", desc, "converting uint32_t points of (%s) to their common point unit does not compile "
+                         "although every factor is inside the implicit-conversion policy for uint32_t: %s" % (desc, diag[:200]), r, None)
+                else:
+                    cnt["u32_not_compiling_outside_model_scale_not_judged"] += 1
+                continue
+            if m["reason"] is None:
+                cnt["not_compiling_violations"] += 1
+                viol("does-not-compile", desc, "CommonPointUnitT / conversion to the common point unit of (%s) does not compile although all "
+                     "origin arithmetic is inside int and the implicit-conversion policy: %s" % (desc, diag[:200]), r, None)
+            else:
+                ood.setdefault(str(cfg), []).append({"list": [u.name for u in m["units"]], "reason": m["reason"], "diag": diag[:200]})
+        for r, o in sorted(res.items()):
+            if r >= U32_OFF:
+                continue
             m = meta[r]
             us = m["units"]
             desc = ",".join(u.name for u in us)
             checked += 1
-            nest_differs[0] += o.get("nest_differs", 0)
-
-            def viol(kind, what):
-                key = "C10:%s:%s" % (kind, desc)
-                run.violation(key, "%s: %s" % (cfg, what),
-                              run.write_replay(key, {"kind": "program", "config": str(cfg), "units": [u.cpp for u in us],
-                                                     "stmts": recs[r][1], "observed": o}))
+            nest_differs += o.get("nest_differs", 0)
             scale_c = model.mag_from_readout(o["u"]["mag"])
             if not model.mag_is_rational(scale_c):
-                viol("irrational-scale", "common point unit of (%s) has an irrational scale although all inputs are rational" % desc)
+                viol("irrational-scale", desc, "common point unit of (%s) has an irrational scale although all inputs are rational" % desc, r, o)
                 continue
             sc = model.mag_fraction(scale_c)
             oc = Fr(o["origin"]["v"]) * model.mag_fraction(model.mag_from_readout(o["origin"]["mag"]))
+            cnt["common_scale_differs_from_model_gcd"] += sc != m["sc_m"]
             if o["perm_bad"] >= 0:
-                viol("permutation", "CommonPointUnitT of (%s) differs for %s" % (desc, m["variants"][o["perm_bad"]]))
-            for u, (v0, v1, v7) in zip(us, o["maps"]):
-                a, b = v1 - v0, v0
+                viol("permutation", desc, "CommonPointUnitT of (%s) differs for %s" % (desc, m["variants"][o["perm_bad"]]), r, o)
+            o32 = res.get(r + U32_OFF) if sc == m["sc_m"] else None
+            cnt["u32_lists_judged"] += o32 is not None
+            for i, u in enumerate(us):
                 si = model.mag_fraction(u.mag)
-                if v7 != 7 * a + b:
-                    viol("nonlinear", "conversion %s -> common(%s) maps 0,1,7 to %d,%d,%d (not affine)" % (u.name, desc, v0, v1, v7))
-                    continue
                 ta, tb = si / sc, (u.origin - oc) / sc
-                if a <= 0 or b < 0:
-                    viol("sign", "conversion %s -> common(%s) is x*%d + %d: factor must be positive, offset non-negative" % (u.name, desc, a, b))
-                if ta.denominator != 1 or tb.denominator != 1:
-                    viol("not-integral", "exact map %s -> common(%s) is x*%s + %s for the reported scale %s / origin %s: not integral" % (u.name, desc, ta, tb, sc, oc))
-                elif (a, b) != (int(ta), int(tb)):
-                    viol("wrong-map", "conversion %s -> common(%s) computes x*%d + %d but the exact affine map is x*%s + %s" % (u.name, desc, a, b, ta, tb))
+                integral = ta.denominator == 1 and tb.denominator == 1
+                if not integral:
+                    viol("not-integral", desc, "exact map %s -> common(%s) is x*%s + %s for the reported scale %s / origin %s: not integral"
+                         % (u.name, desc, ta, tb, sc, oc), r, o)
+                if ta <= 0 or tb < 0:
+                    viol("sign", desc, "exact map %s -> common(%s) is x*%s + %s for the reported scale %s / origin %s: factor must be "
+                         "positive, offset non-negative" % (u.name, desc, ta, tb, sc, oc), r, o)
+                for fld, src, hi in (("maps", o, I64_MAX), ("maps_u64", o, 2 ** 64 - 1), ("maps_u32", o32, U32_MAX)):
+                    if src is None:
+                        continue
+                    v0, v1, v7 = src[fld][i]
+                    if integral and ta > 0 and tb >= 0 and 7 * ta + tb > hi:
+                        cnt["maps_not_judged_value_out_of_range"] += 1      # the probe computation overflows: outside the statement
+                        continue
+                    a, b = v1 - v0, v0
+                    if v7 != 7 * a + b:
+                        viol("nonlinear", desc, "%s: conversion %s -> common(%s) maps 0,1,7 to %d,%d,%d (not affine)" % (fld, u.name, desc, v0, v1, v7), r, o)
+                        continue
+                    if a <= 0 or b < 0:
+                        viol("sign", desc, "%s: conversion %s -> common(%s) is x*%d + %d: factor must be positive, offset non-negative"
+                             % (fld, u.name, desc, a, b), r, o)
+                    if integral and (a, b) != (int(ta), int(tb)):
+                        viol("wrong-map", desc, "%s: conversion %s -> common(%s) computes x*%d + %d but the exact affine map is x*%s + %s"
+                             % (fld, u.name, desc, a, b, ta, tb), r, o)
             has = [i for i, u in enumerate(us) if model.mag_fraction(u.mag) == sc and u.origin == oc]
+            cnt["lists_with_point_equivalent_inputs"] += len(has) > 1
+            cnt["result_is_an_input"] += o["same_as_input"] >= 0
+            cnt["tie_lists"] += len({u.orep[0] for u in us if u.orep is not None and u.origin == min(x.origin for x in us)}) > 1
             if has and o["same_as_input"] < 0:
-                viol("not-an-input", "input %s already has the common scale %s and origin %s but the result is a different type" % (us[has[0]].name, sc, oc))
+                viol("not-an-input", desc, "input %s already has the common scale %s and origin %s but the result is a different type" % (us[has[0]].name, sc, oc), r, o)
             if o["same_as_input"] >= 0 and o["same_as_input"] not in has:
-                viol("wrong-input", "common point unit of (%s) is input %s which does not have the reported scale/origin" % (desc, us[o["same_as_input"]].name))
-    total = len(recs) * len(cfgs)
-    if checked < 0.8 * total:
-        raise core.InfraError("vacuity guard: only %d of %d lists compiled (%s)" % (checked, total, list(ood.values())[:1]))
+                viol("wrong-input", desc, "common point unit of (%s) is input %s which does not have the reported scale/origin" % (desc, us[o["same_as_input"]].name), r, o)
+    n_main = len(lists)
+    cfgs_run = len(cfgs) - n_lists_cut
+    if cfgs_run == 0:
+        raise core.InfraError("deadline reached before any configuration ran")
+    if checked + cnt["not_compiling_violations"] < 0.8 * n_main * cfgs_run:
+        raise core.InfraError("vacuity guard: only %d of %d lists compiled (%s)" % (checked, n_main * cfgs_run, list(ood.values())[:1]))
+    sizes = {k: sum(1 for l in lists if len(l) == k) for k in (1, 2, 3, 4)}
     run.cov.update({
-        "states": len(lists) + len(units), "transitions": n_trans, "traces_validated_against_impl": n_trans * len(cfgs),
-        "lists": len(lists), "lists_checked": checked, "out_of_domain": sum(len(v) for v in ood.values()),
-        "nested_forms_with_a_different_type_not_judged": nest_differs[0],
+        "states": len(lists), "transitions": n_trans, "traces_validated_against_impl": n_trans * cfgs_run,
+        "lists": len(lists), "lists_by_size": sizes, "lists_checked": checked,
+        "lists_predicted_outside_statement": pred_out,
+        "out_of_domain": sum(len(v) for v in ood.values()),
+        "nested_forms_with_a_different_type_not_judged": nest_differs,
         "out_of_domain_samples": {k: v[:3] for k, v in ood.items()},
-        "alphabet": [u.name for u in units], "configs": [str(c) for c in cfgs], "exhaustive": True,
-        "exhaustive_note": "all pairs and triples over the stated alphabet (thorough: + all 4-lists over 6 library point units), all permutations (4-lists: every second)",
+        "lists_with_uint32_probes": sum(1 for m in meta.values() if m["u32"]),
+        "alphabet_main": [u.name for u in main], "alphabet_special": [u.name for u in special],
+        "alphabet_generated": [{"name": u.name, "scale": str(model.mag_fraction(u.mag)), "origin": "%s x %s K" % (u.orep[1], u.orep[0])} for u in g2[:N_GEN2_QUICK if tier == "quick" else len(g2)]],
+        "configs": [str(c) for c in cfgs[:cfgs_run]], "configs_cut_by_deadline": n_lists_cut,
+        "exhaustive": n_lists_cut == 0,
+        "exhaustive_note": "complete over the enumerated families: all singletons and all pairs over main+special+generated units; all triples "
+                           "over the main alphabet; special x pairs of the 6 library units; generated units: "
+                           + ("three cyclic difference patterns of triples and generated x pairs of K/C/F" if tier == "quick" else
+                              "all triples, generated x pairs of the 6 library units, 4-lists over the 6 library units") +
+                           "; all permutations (4-lists: every second) and four repetition forms",
         "samples": [{"list": [u.name for u in meta[r]["units"]]} for r in list(meta)[:: max(1, len(meta) // 5)]][:6],
     })
-    run.assumptions += ["scale and origin of the common point unit are read out of the implementation (MagT and origin_displacement from Kelvins); "
-                        "the oracle demands only that each input's conversion is the exact affine map for those, with positive integer factor and non-negative integer offset",
-                        "lists whose CommonPointUnitT does not compile (origin comparison outside the implicit-conversion policy) are out of domain; vacuity guard 80%"]
+    run.cov.update(cnt)
+    run.assumptions += [
+        "scale and origin of the common point unit are read out of the implementation (MagT and origin_displacement from Kelvins); "
+        "the oracle demands that the exact affine map for those has a positive integer factor and a non-negative integer offset, and that "
+        "coerce_in<long long>, coerce_in<unsigned long long> and (where every factor is inside the uint32_t policy) coerce_in<uint32_t> of "
+        "the points 0, 1, 7 compute exactly that map",
+        "a list must compile unless the model predicts a refusal the statement allows: two origins (Quantity<.,int>) whose comparison or "
+        "difference is outside the implicit-conversion policy or not representable in int, or probe values beyond the probe rep; such lists are "
+        "counted in lists_predicted_outside_statement and judged only if they compile",
+        "generated units G0..: enumerated lattice over the scale alphabet %s, origin-unit alphabet %s K and origin numbers %s (no sampling)"
+        % ([str(x) for x in G_SCALES], [str(x) for x in G_OUNITS], G_KS),
+        "uint16_t and narrower probe reps are not used: integral promotion makes their intermediate arithmetic non-modular (C09 judges narrow reps)",
+    ]
 
 
 def replay(path):
@@ -186,7 +427,15 @@ def replay(path):
     wd = os.path.join(core.BUILD, "C10", "replay")
     res, failed = psx.run_dump(cfg, [(0, r["stmts"])], wd, "rp", PREAMBLE, flags=cflags(cfg))
     print("observed now:", res.get(0), failed)
-    if res.get(0) == r.get("observed"):
+    if r.get("observed") is None:
+        hit = 0 in failed           # recorded as "does not compile": reproduces iff it still does not compile
+    else:
+        now = dict(res.get(0) or {})
+        now.pop("id", None)
+        old = dict(r["observed"])
+        old.pop("id", None)
+        hit = now == old
+    if hit:
         print("VIOLATION property=C10 replay=%s" % path)
         return 1
     return 0
